@@ -38,11 +38,13 @@ pub fn sample_covariance(x: &[f64], y: &[f64]) -> f64 {
 pub fn sample_covariance_onepass(x: &[f64], y: &[f64]) -> f64 {
     assert_eq!(x.len(), y.len());
     let n = x.len();
-    (0..n)
+    let sxy = (0..n)
         .into_iter()
         .map(|i| (x[i] - x[0]) * (y[i] - y[0]))
-        .sum::<f64>()
-        / (n - 1) as f64
+        .sum::<f64>();
+    let sx = (0..n).into_iter().map(|i| x[i] - x[0]).sum::<f64>();
+    let sy = (0..n).into_iter().map(|i| y[i] - y[0]).sum::<f64>();
+    (sxy - sx * sy / n as f64) / (n - 1) as f64
 }
 
 /// Calculates the covariance between two vectors x and y. This is a stable one-pass online algorithm.
